@@ -1010,7 +1010,8 @@ def _c15_cli_rejections(self, rng):
                 p = subprocess.run([os.path.join(self.bdir, "Multitensor")] + argv, cwd=wd, stdout=subprocess.PIPE, stderr=subprocess.PIPE, text=True, env=env)
                 rc, err = p.returncode, p.stderr
                 created = [f for f in os.listdir(os.path.join(wd, "results")) if "results/" + f not in before]
-                after = {f: hashlib.sha1(open(os.path.join(wd, f), "rb").read()).hexdigest() for f in before}
+                after = {f: (hashlib.sha1(open(os.path.join(wd, f), "rb").read()).hexdigest()
+                             if os.path.exists(os.path.join(wd, f)) else "<deleted>") for f in before}
                 altered = created or after != before
             else:
                 rc, err = r.rc, r.err
@@ -1024,7 +1025,7 @@ def _c15_cli_rejections(self, rng):
             elif rc == 0:
                 self.violate("cli-accepts-invalid", "invalid invocation (%s) terminated normally" % what, replay)
             elif altered:
-                self.violate("cli-partial-files", "invalid invocation (%s) created or altered result files" % what, replay)
+                self.violate("cli-partial-files", "invalid invocation (%s) created, altered or deleted result files" % what, replay)
         m = mo.get("cr%d" % n)
         if m is not None and m.get("exit") != ["error"]:
             self.corr_broken.append(("clirun", "cr%d" % n, "exit", "model accepts the invalid invocation (%s)" % what, " ".join(argv)))
@@ -1238,6 +1239,34 @@ class C18(Check):
             if bad:
                 self.violate("writer-layout", "K=%d L=%d assortative=%s: %s" % (K, L, assort, "; ".join(bad[:3])),
                              {"K": K, "L": L, "assortative": assort, "case": [c for c in wcases if c.startswith(cid + " ")][0]})
+        # the initial-affinity reader as a user of the layout: value g of the line of layer a lands at flat a*K*K + g*K + g
+        # (general) / a*K + g (assortative), whatever the order of the lines in the file
+        from .common import hexbytes as _hb
+        rl, rmeta = [], {}
+        for K in (2, 3, 4):
+            for L in (2, 3, 4):
+                for assort in (False, True):
+                    for order in ("reversed", "rotated"):
+                        ids = list(range(L))[::-1] if order == "reversed" else list(range(1, L)) + [0]
+                        text = "".join("%d %s\n" % (a, " ".join(str(100 * a + g + 1) for g in range(K))) for a in ids)
+                        cid = "ra%d%d%d%s" % (K, L, int(assort), order[:3])
+                        size = (K if assort else K * K) * L
+                        rl.append(" ".join([cid, "readaff", str(int(assort)), str(K), str(size), _hb(text)]))
+                        rmeta[cid] = (K, L, assort, text)
+        ioa, _ = self.correspond("readaff@layout", rl, rtol=1e-12)
+        for cid, (K, L, assort, text) in rmeta.items():
+            o = ioa.get(cid)
+            if not o or o.get("err") != ["0"]:
+                continue
+            self.monitor("reader layouts")
+            self.nontrivial(("reader", K, L, assort, cid))
+            w = [unhex(t) for t in o["w"]]
+            bad = [(a, g) for a in range(L) for g in range(K)
+                   if w[(a * K + g) if assort else (a * K * K + g * K + g)] != float(100 * a + g + 1)]
+            if bad:
+                self.violate("affinity-vector-layout", "K=%d L=%d %s: value of (layer, group) %s of the file is not at its flat position"
+                             % (K, L, "assortative" if assort else "general", bad[:3]), {"K": K, "L": L, "assortative": assort, "file": text,
+                                                                                       "case": [c for c in rl if c.startswith(cid + " ")][0]})
         # the views in use: whole calls (several realizations, every sweep observed) in the variants that read the
         # affinity through the transposed view (directed + general); each observed in-membership update must be the
         # update that reads w(q,k,a) at flat q + k*K + a*K*K of the *current* affinity
